@@ -138,7 +138,7 @@ pub fn handle(op: &str, a: &[&str]) -> Option<Resp> {
     }
 }
 
-fn enc_version(v: &debversion::Version) -> String {
+pub fn enc_version(v: &debversion::Version) -> String {
     format!(
         "{}:{}:{}:{}",
         v.epoch.map(|e| e.to_string()).unwrap_or_else(|| "none".to_string()),
@@ -148,7 +148,7 @@ fn enc_version(v: &debversion::Version) -> String {
     )
 }
 
-fn guarded<T>(f: impl FnOnce() -> T) -> Option<T> {
+pub fn guarded<T>(f: impl FnOnce() -> T) -> Option<T> {
     std::panic::catch_unwind(std::panic::AssertUnwindSafe(f)).ok()
 }
 
